@@ -29,9 +29,60 @@ ASSUME CrcTable[0] = <<0, 0, 0, 0>> /\ CrcTable[1] = <<119, 7, 48, 150>>       \
 ASSUME CrcTable[128] = Poly /\ CrcTable[255] = <<45, 2, 239, 141>>             \* 2D02EF8D
 ASSUME \A a, b \in 0..255 : CrcTable[a ^^ b] = XorB(CrcTable[a], CrcTable[b])  \* the table is linear
 ASSUME Crc32Lanes(<<>>) = Zeros(8) /\ Crc32Wide64(<<>>) = Zeros(8)
-ASSUME Murmur32C(<<>>, <<0, 0, 0, 0>>) = <<0, 0, 0, 0>>   \* MurmurHash2("", 0) = 0
-ASSUME Murmur64(<<>>, <<0, 0, 0, 0>>) = Zeros(8)
 ASSUME M32 = Low(M64, 4)
+
+\* MurmurHash2 (32 bit, C reference) as computed by an independent implementation: libstdc++'s
+\* std::_Hash_bytes of a 32-bit build (hash_bytes.cc is Appleby's MurmurHash2); string, seed, value
+Vec32 == <<
+  <<<<>>, <<0, 0, 0, 0>>, <<0, 0, 0, 0>>>>,
+  <<<<>>, <<225, 122, 20, 101>>, <<89, 116, 131, 177>>>>,
+  <<<<97>>, <<0, 0, 0, 0>>, <<146, 104, 95, 94>>>>,
+  <<<<97>>, <<225, 122, 20, 101>>, <<27, 148, 191, 217>>>>,
+  <<<<97, 98>>, <<0, 0, 0, 0>>, <<26, 161, 64, 99>>>>,
+  <<<<97, 98>>, <<225, 122, 20, 101>>, <<240, 100, 117, 224>>>>,
+  <<<<97, 98, 99>>, <<0, 0, 0, 0>>, <<19, 87, 124, 155>>>>,
+  <<<<97, 98, 99>>, <<225, 122, 20, 101>>, <<202, 103, 57, 26>>>>,
+  <<<<97, 98, 99, 100>>, <<0, 0, 0, 0>>, <<38, 135, 48, 33>>>>,
+  <<<<97, 98, 99, 100>>, <<225, 122, 20, 101>>, <<236, 187, 159, 90>>>>,
+  <<<<104, 101, 108, 108, 111, 32, 119, 111, 114, 108, 100>>, <<0, 0, 0, 0>>, <<68, 168, 20, 25>>>>,
+  <<<<104, 101, 108, 108, 111, 32, 119, 111, 114, 108, 100>>, <<225, 122, 20, 101>>, <<34, 148, 50, 149>>>>,
+  <<<<49, 50, 51, 52, 53, 54, 55, 56, 57>>, <<0, 0, 0, 0>>, <<220, 203, 1, 103>>>>,
+  <<<<49, 50, 51, 52, 53, 54, 55, 56, 57>>, <<225, 122, 20, 101>>, <<253, 23, 135, 147>>>>,
+  <<<<49, 50, 51, 52, 53, 54, 55>>, <<0, 0, 0, 0>>, <<145, 87, 18, 122>>>>,
+  <<<<49, 50, 51, 52, 53, 54, 55>>, <<225, 122, 20, 101>>, <<7, 231, 35, 43>>>>,
+  <<<<49, 50, 51, 52, 53, 54, 55, 56>>, <<0, 0, 0, 0>>, <<210, 85, 251, 239>>>>,
+  <<<<49, 50, 51, 52, 53, 54, 55, 56>>, <<225, 122, 20, 101>>, <<83, 96, 118, 93>>>>,
+  <<<<49, 50, 51, 52, 53, 54, 55, 56>>, <<0, 0, 0, 8>>, <<6, 0, 180, 219>>>>,
+  <<<<49, 50, 51, 52, 53, 54, 55, 56, 57, 97, 98, 99, 100, 101, 102>>, <<0, 0, 0, 0>>, <<241, 161, 147, 218>>>>,
+  <<<<49, 50, 51, 52, 53, 54, 55, 56, 57, 97, 98, 99, 100, 101, 102>>, <<225, 122, 20, 101>>, <<212, 2, 105, 91>>>>,
+  <<<<255, 128, 129, 254, 144, 160, 240>>, <<0, 0, 0, 0>>, <<102, 197, 175, 214>>>>,
+  <<<<255, 128, 129, 254, 144, 160, 240>>, <<225, 122, 20, 101>>, <<52, 149, 31, 181>>>>,
+  <<<<255, 128>>, <<0, 0, 0, 0>>, <<121, 54, 90, 66>>>>,
+  <<<<255, 128>>, <<225, 122, 20, 101>>, <<103, 135, 124, 41>>>>,
+  <<<<129, 254, 144, 160, 240>>, <<0, 0, 0, 0>>, <<201, 199, 58, 129>>>>,
+  <<<<129, 254, 144, 160, 240>>, <<225, 122, 20, 101>>, <<131, 20, 202, 98>>>> >>
+ASSUME \A i \in 1..Len(Vec32) : Murmur32C(Vec32[i][1], Vec32[i][2]) = Vec32[i][3]
+\* MurmurHash64A as computed by libstdc++'s std::_Hash_bytes of a 64-bit build
+Vec64 == <<
+  <<<<>>, <<0, 0, 0, 0>>, <<0, 0, 0, 0, 0, 0, 0, 0>>>>,
+  <<<<>>, <<225, 122, 20, 101>>, <<155, 250, 224, 164, 230, 19, 252, 60>>>>,
+  <<<<97>>, <<0, 0, 0, 0>>, <<7, 23, 23, 210, 211, 107, 107, 17>>>>,
+  <<<<97>>, <<225, 122, 20, 101>>, <<8, 28, 204, 131, 21, 70, 102, 167>>>>,
+  <<<<104, 101, 108, 108, 111, 32, 119, 111, 114, 108, 100>>, <<0, 0, 0, 0>>, <<211, 186, 35, 104, 168, 50, 175, 206>>>>,
+  <<<<104, 101, 108, 108, 111, 32, 119, 111, 114, 108, 100>>, <<225, 122, 20, 101>>, <<245, 46, 220, 242, 247, 236, 67, 3>>>>,
+  <<<<49, 50, 51, 52, 53, 54, 55, 56, 57>>, <<0, 0, 0, 0>>, <<73, 119, 73, 2, 81, 103, 67, 48>>>>,
+  <<<<49, 50, 51, 52, 53, 54, 55, 56, 57>>, <<225, 122, 20, 101>>, <<227, 250, 68, 168, 198, 155, 241, 230>>>>,
+  <<<<49, 50, 51, 52, 53, 54, 55>>, <<0, 0, 0, 0>>, <<174, 158, 189, 32, 149, 39, 148, 2>>>>,
+  <<<<49, 50, 51, 52, 53, 54, 55>>, <<225, 122, 20, 101>>, <<45, 248, 225, 79, 37, 160, 171, 81>>>>,
+  <<<<49, 50, 51, 52, 53, 54, 55, 56>>, <<0, 0, 0, 0>>, <<117, 143, 103, 209, 98, 178, 210, 2>>>>,
+  <<<<49, 50, 51, 52, 53, 54, 55, 56>>, <<225, 122, 20, 101>>, <<15, 150, 220, 71, 79, 25, 185, 148>>>>,
+  <<<<49, 50, 51, 52, 53, 54, 55, 56, 57, 97, 98, 99, 100, 101, 102>>, <<0, 0, 0, 0>>, <<255, 218, 142, 9, 23, 116, 20, 195>>>>,
+  <<<<49, 50, 51, 52, 53, 54, 55, 56, 57, 97, 98, 99, 100, 101, 102>>, <<225, 122, 20, 101>>, <<15, 145, 142, 156, 109, 103, 113, 157>>>>,
+  <<<<255, 128, 129, 254, 144, 160, 240>>, <<0, 0, 0, 0>>, <<182, 25, 240, 103, 51, 86, 37, 248>>>>,
+  <<<<255, 128, 129, 254, 144, 160, 240>>, <<225, 122, 20, 101>>, <<89, 48, 124, 157, 235, 69, 75, 185>>>> >>
+ASSUME \A i \in 1..Len(Vec64) : Murmur64(Vec64[i][1], Vec64[i][2]) = Vec64[i][3]
+\* golib's pinned test values: HashStr("hello world") = 222957957 (0D4A1185, the CRC-32 of that text)
+ASSUME Crc32(<<104, 101, 108, 108, 111, 32, 119, 111, 114, 108, 100>>) = <<13, 74, 17, 133>>
 
 \* byte-limb multiplication against TLC's own integers where those suffice, and its ring laws
 Small == {0, 1, 2, 3, 255, 256, 257, 1000, 32767, 46340}
